@@ -8,6 +8,7 @@ Verdict(c) ==
   CASE c.f = "pareto_efficient" -> IF c.mask = ParetoMask(c.X) THEN {} ELSE {"pareto_mask"}
     [] c.f = "nondominated_sort" -> IF ValidSort(c.X, c.order, c.maxitems) THEN {} ELSE {"invalid_sort"}
     [] c.f = "moasha" -> IF c.d \in MoashaAllowed(c.X, c.rfn, c.rfd) THEN {} ELSE {"moasha_rank_rule"}
+    [] c.f = "moasha_scalar" -> IF c.d \in MoashaScalarAllowed(c.P, c.rfn, c.rfd) THEN {} ELSE {"moasha_rank_rule"}
     [] c.f = "moasha_first" -> IF c.d = "CONTINUE" THEN {} ELSE {"moasha_first_continues"}
     [] c.f = "moasha_max" -> IF c.d = "STOP" THEN {} ELSE {"moasha_stop_at_max"}
     [] c.f = "moasha_off" -> IF c.d = "CONTINUE" THEN {} ELSE {"moasha_decide_off_rung"}
